@@ -1,6 +1,7 @@
 package checks
 
 import (
+	"runtime"
 	"strings"
 
 	"github.com/bartossh/Computantis/src/wallet"
@@ -16,3 +17,5 @@ func containsAny(s string, subs ...string) bool {
 }
 
 func walletVerifier() wallet.Helper { return wallet.NewVerifier() }
+
+func runtimeStack(buf []byte) int { return runtime.Stack(buf, false) }
